@@ -1735,7 +1735,10 @@ func (c *codegen) processDefers() {
 				// After panic, default values must be returns, except for named returns,
 				// which we don't support here for now.
 				for i := range slices.Backward(results.List) {
-					c.emitDefault(c.typeOf(results.List[i].Type))
+					// One value per result: `(a, b int)` is one field with two names.
+					for range max(1, len(results.List[i].Names)) {
+						c.emitDefault(c.typeOf(results.List[i].Type))
+					}
 				}
 			}
 		}
